@@ -39,7 +39,8 @@ def plan(tier):
     return {"cases": 2400 if tier == "quick" else 60000, "shards": 16, "case_timeout": 60, "shard_timeout": 3000,
             "dev_shard": False, "min_nontrivial": 40,
             "min_counters": {"programs": 2000, "accepted": 1000, "rejected": 100, "results_compared": 1000,
-                             "the_programs": 100, "join_programs": 100, "path_programs": 200}}
+                             "the_programs": 100, "join_programs": 100, "path_programs": 200,
+                             "accepted:join_rel": 50, "accepted:join_scalar_diff": 30}}
 
 
 def coverage_extra(counters, evaluations):
@@ -339,6 +340,7 @@ def run(case, ctx):
                 return {"status": "fail", "kind": "foreign-exception:" + type(e).__name__, "key": key_hint,
                         "detail": f"{q['kind']} {skeleton(q['cond'])}: {type(e).__name__}: {e}"[:400]}
         C["accepted"] += 1
+        C["accepted:" + q["kind"]] += 1
         if q.get("reject"):
             # accepted although it contains a construct outside the translator's vocabulary: must still agree
             C["accepted_with_untranslatable_construct"] += 1
